@@ -46,8 +46,8 @@ def legal_elem(e, player, n):
     return isinstance(e[1], int) and 0 <= e[1] < n
 
 
-def elem_family(player, n):
-    lab_ok = "a" if player != PR else 0.5
+def elem_family(player, n, k=2):
+    lab_ok = "a" if player != PR else 1.0 / k          # k equal shares: the witness lists of a probabilistic state are distributions
     labels = ["a", "", 0.5, 1, None, ("a",), "0.5", "1", [0.5]]     # numeric-looking strings: a coercing check (float(x)) would accept them
     succs = [-2, -1, 0, n - 1, n, n + 1, 1.5, "0", None]
     fam = []
@@ -56,7 +56,21 @@ def elem_family(player, n):
     for l in labels:
         fam.append((l, 0))
     fam += [(), (lab_ok,), (lab_ok, 0, 0), [lab_ok, 0], None, "ab", 5, {"a": 0}]
+    if player == PR:
+        # a share of probability 0 is still a transition: its successor must be a state
+        fam += [(0, s_) for s_ in succs] + [(0.0, n)]
     return fam
+
+
+def dont_care(ns, player):
+    """Witnesses on which the property does not fix the verdict: element-wise legal transitions of a probabilistic state whose
+    probabilities are not a distribution (not in (0, 1], or not adding up to 1) - rejecting them or not is the validator's choice."""
+    if player != PR or not isinstance(ns, list):
+        return False
+    ps = [e[0] for e in ns if isinstance(e, tuple) and len(e) == 2 and isinstance(e[0], (int, float)) and not isinstance(e[0], bool)]
+    if len(ps) != len(ns):
+        return False
+    return any(p_ <= 0 or p_ > 1 for p_ in ps) or abs(sum(ps) - 1) > 1e-9
 
 
 def game_legal(players, tl, rewards, finals):
@@ -179,15 +193,22 @@ def r4_check_next_states(ctx, chk, rule="C09.1"):
                               found="no raise reachable", construct="%s constructor does not validate" % cls)
                 continue
             for n in (1, 3):
-                good = ("a" if player != PR else 0.5, 0)
+                good = ("a" if player != PR else 1.0, 0)
                 cases = [("container type %s" % type(w).__name__, w) for w in ([], (good,), None, "ab", 5, {0: good}, [good])]
-                fam = elem_family(player, n)
                 for k in (1, 2, 3):
+                    fam = elem_family(player, n, k)
+                    good = ("a" if player != PR else 1.0 / k, 0)
                     for pos in range(k):
                         for e in fam:
                             ns = [good] * k
                             ns[pos] = e
                             cases.append(("element kind %s at position %d of %d" % (_kind(e, n), pos, k), ns))
+                if player == PR:
+                    # distributions written in decimals whose floating-point sum, taken in the written order, is not exactly 1
+                    # (a running `+=` and the compensated builtin sum() of this interpreter differ: both kinds of noise are represented)
+                    for ps in ((0.2, 0.4, 0.3, 0.1), (0.4, 0.2, 0.3, 0.1), (0.1, 0.2, 0.3, 0.4), (0.7, 0.2, 0.1), (0.1, 0.2, 0.7), (0.1,) * 10,
+                               (0.7, 0.29, 0.01), (0.3, 0.69, 0.01), (0.01, 0.41, 0.58)):
+                        cases.append(("decimal distribution %s (float sum %r)" % (ps if len(ps) < 6 else "10 x 0.1", sum(ps)), [(p_, 0) for p_ in ps]))
                 for desc, ns in cases:
                     env = {("v", "next_states"): ns, ("v", "player"): player, ("v", "num_states"): n, ("v", "idx"): 0, ("v", "reward"): 0,
                            ("v", "is_final_node"): False}
@@ -196,6 +217,8 @@ def r4_check_next_states(ctx, chk, rule="C09.1"):
                     legal = isinstance(ns, list) and all(legal_elem(e, player, n) for e in ns)
                     if (legal and out[0] == "accept") or (not legal and out[0] == "raise" and out[1] == "ValueError"):
                         continue
+                    if legal and dont_care(ns, player) and out[0] == "raise" and out[1] == "ValueError":
+                        continue            # not a distribution: the validator may refuse it
                     n_bad += 1
                     if n_bad > 6:
                         continue
